@@ -998,6 +998,12 @@ MC_SUBCHECK(a_sched)
     b2.nthreads = 2;
     run_body(b2, true, th ? 4 : 2, 0, th ? 400000 : 20000);
     run_body(b2, false, th ? 4 : 2, 0, th ? 400000 : 20000);
+    if (!th) {
+      // quick: also 3 threads, bound 2
+      b2.nthreads = 3;
+      run_body(b2, true, 2, 0, 20000);
+      run_body(b2, false, 2, 0, 20000);
+    }
     if (th) {
       // 3 threads, bound 3; 4 threads, bound 2
       b2.nthreads = 3;
